@@ -58,8 +58,16 @@ def _expand(hist):
         if fails:
             out.append((ev, None, fails, oc))
         else:
-            out.append((ev, m.canon(s2), [], oc))
+            out.append((ev, _digest(m.canon(s2)), [], oc))
     return out
+
+
+def _digest(key) -> bytes:
+    """16-byte digest of a canonical form (keeps the `seen` set small; a collision would need
+    ~2^64 states)."""
+    import hashlib
+
+    return hashlib.blake2b(repr(key).encode(), digest_size=16).digest()
 
 
 @dataclass
@@ -78,7 +86,7 @@ def explore(machine, max_depth: int, col: Collector, procs: int | None = None, s
     _MACHINE = machine
     st = E1Stats()
     s0 = machine.initial()
-    seen = {machine.canon(s0)}
+    seen = {_digest(machine.canon(s0))}
     frontier: list[list] = [[]]
     st.states = 1
     depth = 0
